@@ -46,6 +46,11 @@ func (p propSpec) Deadline(tier int) time.Duration { return p.DeadlineT[tier] }
 const techSX = "symbolic execution of the real code's go/ssa (GoSX) with SMT (z3) deciding every branch and assertion over all values of the symbolic inputs within the stated bounds; counterexamples replayed natively"
 
 var properties = map[string]propSpec{
+	"C06": {
+		Level: "model_checking", Technique: techSX,
+		Bounds:  [2]string{"lists of 0..2 symbolic elements (int8 / string / erroring slice), maps over 2 candidate keys with symbolic presence and values; 5 list binding templates, 6 nesting/scoping templates (field, JSON pointer, nested quantifier, shadowing, same-named top-level field), 4 map templates; non-iterable collections", "lists 0..3, maps over 3 candidate keys"},
+		Outside: "collections longer than the bound; with an erroring map element only 'error or decisive value' is demanded (which of the two is C14)",
+	},
 	"C05": {
 		Level: "model_checking", Technique: techSX,
 		Bounds:  [2]string{"selectors of 1..3 parts; absent step at leaf / intermediate / root / field / index / scalar / nil, through maps (string, named-string, typed, nil), structs, lists, pointers and quantifier aliases; map key bytes symbolic (1 byte: the solver decides collision); 8 operators; unknown value symbolic in int64/string/bool/uint8/nil", "same"},
